@@ -16,11 +16,53 @@ _PREFIXES = (REPO_ROOT.rstrip("/") + "/a816/", REPO_ROOT.rstrip("/") + "/script/
 
 
 class Watchdog:
+    """Python >= 3.12: sys.monitoring LINE events (PEP 669).  A sys.settrace callback is silently removed by the
+    interpreter as soon as it raises -- which it does with RecursionError when the traced code sits at the recursion
+    limit -- and code that then swallows the RecursionError and carries on would run unobserved.  Monitoring callbacks
+    stay registered whatever they raise."""
+
     def __init__(self, budget: int):
         self.budget = budget
         self.count = 0
         self._interesting: dict = {}
 
+    # ---- sys.monitoring -------------------------------------------------------------------------------
+    def _on_line(self, code, line):
+        hit = self._interesting.get(code)
+        if hit is None:
+            hit = code.co_filename.startswith(_PREFIXES)
+            self._interesting[code] = hit
+        if not hit:
+            return sys.monitoring.DISABLE
+        self.count += 1
+        if self.count > self.budget:
+            raise BudgetExceeded(f"more than {self.budget} line events")
+        return None
+
+    def _run_monitoring(self, fn, args, kwargs):
+        mon = sys.monitoring
+        tool = mon.PROFILER_ID
+        if mon.get_tool(tool) is not None:
+            mon.set_events(tool, 0)
+            mon.free_tool_id(tool)
+        mon.use_tool_id(tool, "a816verif-watchdog")
+        mon.register_callback(tool, mon.events.LINE, self._on_line)
+        mon.set_events(tool, mon.events.LINE)
+        mon.restart_events()
+        try:
+            return "ok", fn(*args, **kwargs)
+        except BudgetExceeded as e:
+            return "budget", str(e)
+        except RecursionError:
+            return "exception", "RecursionError"
+        except Exception as e:
+            return "exception", f"{type(e).__name__}: {str(e)[:100]}"
+        finally:
+            mon.set_events(tool, 0)
+            mon.register_callback(tool, mon.events.LINE, None)
+            mon.free_tool_id(tool)
+
+    # ---- sys.settrace fallback (Python < 3.12) ----------------------------------------------------------
     def _local(self, frame, event, arg):
         if event == "line":
             self.count += 1
@@ -39,6 +81,8 @@ class Watchdog:
 
     def run(self, fn, *args, **kwargs):
         """-> (status, value): status in ok | exception | budget"""
+        if hasattr(sys, "monitoring"):
+            return self._run_monitoring(fn, args, kwargs)
         old = sys.gettrace()
         sys.settrace(self._global)
         try:
@@ -67,3 +111,10 @@ def selftest() -> None:
     w = Watchdog(100)
     st, v = w.run(lambda: sum(range(100000)))
     assert st == "ok" and w.count == 0
+    # code that swallows RecursionError at the recursion limit and then spins must still be stopped
+    src2 = ("def deep(n):\n    try:\n        return deep(n + 1)\n    except RecursionError:\n        i = 0\n        while True:\n            i += 1\n")
+    ns2: dict = {}
+    exec(compile(src2, _PREFIXES[0] + "_watchdog_selftest2.py", "exec"), ns2)
+    w = Watchdog(200_000)
+    st, _ = w.run(ns2["deep"], 0)
+    assert st == "budget", st
